@@ -451,4 +451,42 @@ theorem lk_reach {cfg : Cfg} {script : List Cmd} {s : State} (h : Reach cfg scri
     | main => exact lk_stepMain cfg s s' hs (si_reach hr) ih
     | player i => exact lk_stepPlayer cfg s s' i hs ih
 
+theorem mlock_holder_enabled' {cfg : Cfg} {script : List Cmd} {s : State} (hr : Reach cfg script s)
+    (t : Tid) (ht : s.mlock = some t) : enabled cfg s t = true := by
+  obtain ⟨l1, l2, l3, l4⟩ := lk_reach hr
+  have hc := (si_reach hr).g.creat
+  cases t with
+  | main =>
+    have hm := l2 ht
+    have hex : ∀ i, creating s.mpc = some i → ∃ p, s.players[i]? = some p := by
+      intro i hi
+      have := hc i hi
+      unfold pcAt at this
+      cases hq : s.players[i]? with
+      | none => rw [hq] at this; cases this
+      | some p => exact ⟨p, rfl⟩
+    unfold enabled step stepMain
+    cases hmp : s.mpc <;> rw [hmp] at hm hex <;> simp only [mainHoldsM] at hm <;>
+      (try (cases hm; done)) <;> simp only []
+    · rfl
+    · obtain ⟨p, hp⟩ := hex _ rfl; rw [hp]; rfl
+    · obtain ⟨p, hp⟩ := hex _ rfl; rw [hp]; rfl
+    · obtain ⟨p, hp⟩ := hex _ rfl; rw [hp]; rfl
+    · rfl
+    · rename_i f
+      cases f with
+      | some i => rfl
+      | none => simp only []; split <;> rfl
+  | player j =>
+    have hp := l3 j ht
+    unfold pcAt at hp
+    unfold enabled step stepPlayer
+    cases hq : s.players[j]? with
+    | none => rw [hq] at hp; cases hp
+    | some p =>
+      rw [hq] at hp
+      simp only [Option.map_some, Option.some.injEq] at hp
+      simp only [hq, hp]
+      rfl
+
 end ALV.C17
